@@ -275,3 +275,108 @@ RECIPES = [
             start = end + 1''', '''            fields.extend([seq[start], "THRU", seq[end]])
             start = end''', "_wt_with_thru repeats the end of a run"),
 ]
+
+_T1_BODY = """    if n == 32:
+        tablestr = tablestr + "*"
+        f.write(f"{tablestr:<8s}{tid:16d}\\n*\\n")
+        rows = npts // 2
+        r = rows * 2
+        if rows:
+            writer.vecwrite(
+                f, "*       " + form * 2 + "\\n", t[:r:2], d[:r:2], t[1:r:2], d[1:r:2]
+            )
+        f.write("*       ")
+        for j in range(r, npts):
+            f.write(form.format(t[j], d[j]))
+    else:
+        f.write(f"{tablestr:<8s}{tid:8d}\\n")
+        rows = npts // 4
+        r = rows * 4
+        if rows:
+            writer.vecwrite(
+                f,
+                "        " + form * 4 + "\\n",
+                t[:r:4],
+                d[:r:4],
+                t[1:r:4],
+                d[1:r:4],
+                t[2:r:4],
+                d[2:r:4],
+                t[3:r:4],
+                d[3:r:4],
+            )
+        f.write("        ")
+        for j in range(r, npts):
+            f.write(form.format(t[j], d[j]))
+    f.write("ENDT\\n")
+"""
+
+_T1_DEF = '''@guitools.write_text_file
+def wttabled1(f, tid, t, d, title=None, form="{:16.9E}{:16.9E}", tablestr="TABLED1"):
+'''
+
+RECIPES += [
+    ("C13", "neutral", [], B, _T1_BODY, """    wide = n == 32
+    if not wide:
+        f.write(f"{tablestr:<8s}{tid:8d}\\n")
+        nfull = npts // 4
+        stop = 4 * nfull
+        if nfull:
+            cols = [t[0:stop:4], d[0:stop:4], t[1:stop:4], d[1:stop:4], t[2:stop:4], d[2:stop:4], t[3:stop:4], d[3:stop:4]]
+            writer.vecwrite(f, "        " + form * 4 + "\\n", *cols)
+        f.write("        ")
+        for k in range(stop, npts):
+            f.write(form.format(t[k], d[k]))
+        f.write("ENDT\\n")
+        return
+    tablestr = tablestr + "*"
+    nfull = npts // 2
+    stop = 2 * nfull
+    f.write(f"{tablestr:<8s}{tid:16d}\\n*\\n")
+    if nfull > 0:
+        writer.vecwrite(f, "*       " + form * 2 + "\\n", t[:stop:2], d[:stop:2], t[1:stop:2], d[1:stop:2])
+    f.write("*       ")
+    for k in range(stop, npts):
+        f.write(form.format(t[k], d[k]))
+    f.write("ENDT\\n")
+""", "tabled1 arms swapped, early return, renamed locals, starred column list"),
+    ("C13", "neutral", [], B, _T1_DEF, '''_TABLED1_FORM = "{:16.9E}" * 2
+_HEAD8 = " " * 8
+
+
+@guitools.write_text_file
+def wttabled1(f, tid, t, d, title=None, form=_TABLED1_FORM, tablestr="TABLED1"):
+''', "tabled1 default form as a module constant (F10 key must survive)"),
+    ("C13", "neutral", [], B, '''        f.write("        ")
+        for j in range(r, npts):
+            f.write(form.format(t[j], d[j]))
+    f.write("ENDT\\n")
+''', '''        f.write(" " * 8)
+        _wt_tail(f, form, t, d, r, npts)
+        return
+    f.write("ENDT\\n")
+
+
+def _wt_tail(f, form, t, d, first, stop):
+    for j in range(first, stop):
+        f.write(form.format(t[j], d[j]))
+    f.write("ENDT\\n")
+''', "tabled1 small field: leftover loop and ENDT in an extracted helper"),
+    ("C13", "neutral", [], B, '''def wtgrids(
+    f,''', '''_GRID_FORM = "{:16.8f}"
+
+
+def wtgrids(
+    f,''', "module constant added before wtgrids (no use)"),
+    ("C13", "neutral", [], W, '    length = 1\n    fncs = []\n    for i, arg in enumerate(args):\n        if not isinstance(arg, str) and hasattr(arg, "__len__"):\n            if np.ndim(arg) == 2:\n                fncs.append(_get_matrow)\n                curlen = np.size(arg, 0)\n            elif len(arg) == 1:\n                fncs.append(_get_scalar1)\n                curlen = 1\n            else:\n                fncs.append(_get_itemi)\n                curlen = len(arg)\n            if curlen > 1:\n                if length > 1:\n                    if so is not None:\n                        if range(curlen)[so] != range(length)[so]:\n                            msg = (\n                                "length mismatch with slice object:"\n                                f" arg # {i + 1} is incompatible with "\n                                "previous args"\n                            )\n                            raise ValueError(msg)\n                    elif curlen != length:\n                        msg = (\n                            f"length mismatch: arg # {i + 1} has "\n                            f"length {curlen}; expected {length} or 1."\n                        )\n                        raise ValueError(msg)\n                length = curlen\n        else:\n            fncs.append(_get_scalar)\n    _vecwrite(f, string, length, args, fncs, postfunc, pfargs, so)\n',
+     '    nrows = 1\n    fncs = []\n    for i, arg in enumerate(args):\n        if not isinstance(arg, str) and hasattr(arg, "__len__"):\n            if np.ndim(arg) == 2:\n                fncs.append(_get_matrow)\n                curlen = np.size(arg, 0)\n            elif len(arg) == 1:\n                fncs.append(_get_scalar1)\n                curlen = 1\n            else:\n                fncs.append(_get_itemi)\n                curlen = len(arg)\n            if 1 < curlen:\n                if nrows > 1:\n                    if so is not None:\n                        if range(curlen)[so] != range(nrows)[so]:\n                            msg = (\n                                "nrows mismatch with slice object:"\n                                f" arg # {i + 1} is incompatible with "\n                                "previous args"\n                            )\n                            raise ValueError(msg)\n                    elif curlen != nrows:\n                        msg = (\n                            f"nrows mismatch: arg # {i + 1} has "\n                            f"nrows {curlen}; expected {nrows} or 1."\n                        )\n                        raise ValueError(msg)\n                nrows = curlen\n            continue\n        fncs.append(_get_scalar)\n    _vecwrite(f, string, nrows, args, fncs, postfunc, pfargs, so)\n', "vecwrite: count renamed, 1 < curlen, continue instead of else"),
+    ("C13", "neutral", [], B, '''    while start < length:
+        end = _find_sequence(ids, start)
+        if end > start:
+            output.append(f"{ids[start]:d} THRU {ids[end]:d}, ")''', '''    while True:
+        if start >= length:
+            break
+        end = _find_sequence(ids, start)
+        if end > start:
+            output.append(f"{ids[start]:d} THRU {ids[end]:d}, ")''', "wtset loop with break"),
+]
